@@ -147,6 +147,7 @@ type exec struct {
 	kfTriggered    bool
 	knownSig       string // set while judging a directory damaged in a way a listed known finding covers
 	writesThisLife int
+	sutPanicked    bool // a task panicked inside the mapper
 	floodDone      bool // the writer has queued its flood (readers of flood runs wait for it before their last reads)
 	writerActive   bool
 
@@ -740,6 +741,9 @@ func (e *exec) recoverTask(name string) {
 			panic(r)
 		}
 		e.fail("panic", "panic:"+normErr(errors.New(msg)), "panic in %s task: %v\n%s", name, r, trimStack(st))
+		e.mu.Lock()
+		e.sutPanicked = true // the mapper may hold its locks for good: nothing of it is called any more (not even Close)
+		e.mu.Unlock()
 	}
 }
 
@@ -1266,6 +1270,18 @@ func (e *exec) runPhase(pi int, ph Phase) bool {
 	}
 	e.cnt("sched_steps", int64(steps))
 	e.phaseHashes = append(e.phaseHashes, fmt.Sprintf("%016x", s.TraceHash()))
+	e.mu.Lock()
+	abandoned := e.sutPanicked
+	e.mu.Unlock()
+	if abandoned {
+		// a task panicked inside the mapper (reported): Close could block on a lock the panic left held
+		e.cdm = nil
+		e.mu.Lock()
+		e.s = nil
+		e.collecting = false
+		e.mu.Unlock()
+		return false
+	}
 	// Close drains the queue (the worker runs freely now) and flushes; crash images are still taken
 	cerr := e.cdm.Close()
 	e.cdm = nil
